@@ -237,9 +237,12 @@ class SED(object):
         # Set SED attributes
         sed.apertures = ap
 
-        # Convert wavelength and frequencies to requested units
-        sed.wav = wav.to(unit_wav)
-        sed.nu = nu.to(unit_freq)
+        # Convert wavelength and frequencies to requested units (in double
+        # precision: files store these columns in single precision, and what
+        # is derived from them - converted values, mid-points between
+        # frequencies - would otherwise be rounded to single precision again)
+        sed.wav = wav.astype(float).to(unit_wav)
+        sed.nu = nu.astype(float).to(unit_freq)
 
         # Set fluxes (the conversion is done in double precision: for files
         # stored in single precision, intermediate values such as F / nu can
